@@ -431,6 +431,8 @@ class Engine:
         r, m = self._check(cond)
         if r == 'unknown':
             r, m = self._fresh_check([cond], max(self.qtimeout, 20000))
+        if r == 'unknown' and self._abstract_unsat(cond, max(self.qtimeout, 20000)):
+            r, m = 'unsat', None         # infeasible even without the congruence axioms
         return r, m
 
     def _fresh_check(self, extra, timeout):
